@@ -146,7 +146,7 @@ func init() {
 			return res
 		},
 	}
-	c19Phases = append([]*fw.Phase{parsers}, c19Phases...)
+	c19Phases = append([]*fw.Phase{parsers}, c19MorePhases()...)
 	fw.Register(&fw.Property{
 		ID:    "C19",
 		Level: "exploration",
